@@ -215,6 +215,8 @@ def ev(e, env):
             if ca is not None:
                 return const(ca // cb if op == "/" else ca >> cb)
             return atom(("div" if op == "/" else "shr", freeze(a), cb))
+        if op in ("<<", ">>") and a is not TOP and b is not TOP:
+            return atom(("fn", "shl" if op == "<<" else "shr", freeze(a), freeze(b)))
         return opaque()
     if k == "mcall":
         nm = e.get("name")
